@@ -1,4 +1,5 @@
 // C12, normalised indicators: MyRSI (scale, negation), Vst (scale), Vsct (affine), EFT normalisation (affine), CTI (affine on a full window)
+use crate::props::c00_affine::*;
 use crate::props::c04_averages::*;
 use crate::props::c12_invariance::*;
 use crate::props::c12_scale_more::*;
@@ -31,23 +32,6 @@ pub proof fn lemma_my_rsi_invariance(w: Seq<T>, pred: T, a: real, b: real)
 {
     lemma_gl_scale(w, pred, a, b); lemma_gl_negate(w, pred);
     lemma_ratio_scale(gains(w, pred), losses(w, pred), a); lemma_ratio_negate(gains(w, pred), losses(w, pred));
-}
-// variance under x -> a x + b
-pub proof fn lemma_sumsq_affine(w: Seq<T>, a: real, b: real)
-    ensures sumsq(affine(w, a, b)) == (a * a) * sumsq(w) + 2real * (a * b) * sum(w) + (w.len() as real) * (b * b)
-    decreases w.len()
-{
-    if w.len() > 0 {
-        lemma_sumsq_affine(w.drop_last(), a, b);
-        assert(affine(w, a, b).drop_last() =~= affine(w.drop_last(), a, b));
-        let x = w.last().v(); let k = w.drop_last().len() as real;
-        assert(affine(w, a, b).last().v() == a * x + b);
-        assert(w.len() as real == k + 1real);
-        assert((a * x + b) * (a * x + b) == (a * a) * (x * x) + 2real * (a * b) * x + b * b) by(nonlinear_arith);
-        assert((a * a) * (sumsq(w.drop_last()) + x * x) == (a * a) * sumsq(w.drop_last()) + (a * a) * (x * x)) by(nonlinear_arith);
-        assert(2real * (a * b) * (sum(w.drop_last()) + x) == 2real * (a * b) * sum(w.drop_last()) + 2real * (a * b) * x) by(nonlinear_arith);
-        assert((k + 1real) * (b * b) == k * (b * b) + b * b) by(nonlinear_arith);
-    } else { assert((a * a) * 0real == 0real && 2real * (a * b) * 0real == 0real && 0real * (b * b) == 0real) by(nonlinear_arith); }
 }
 pub proof fn lemma_welford_variance_affine(w: Seq<T>, a: real, b: real)
     requires w.len() >= 2
